@@ -7,7 +7,8 @@ from props import smr_common as S
 def run(ctx):
     # Tier B: HP.tla (attach with record reuse, protect, retire, classic/in-place scan, help_scan, detach, destructor)
     vlib.model_check_many(ctx, [dict(module_rel="smr/HPMC.tla", cfg_rel="smr/HP_q.cfg" if ctx.quick() else "smr/HP_t.cfg", workers=8, timeout=3000),
-                                dict(module_rel="smr/HPMC.tla", cfg_rel="smr/HP_bad_scan.cfg", workers=4, expect_violation="Assert")], par=2)
+                                dict(module_rel="smr/HPMC.tla", cfg_rel="smr/HP_bad_scan.cfg", workers=4, expect_violation="Assert"),
+                                dict(module_rel="smr/HPMC.tla", cfg_rel="smr/HP_bad_stopatempty.cfg", workers=4, expect_violation="Assert")], par=3)
     k1 = [v for v in S.HP_VARIANTS if "_k1" in v]
     k2 = [v for v in S.HP_VARIANTS if "_k1" not in v]
     n = 1 if ctx.quick() else 6
